@@ -132,8 +132,17 @@ func buildC09TS(e *engine, p *rt.Package) {
 					}
 					sort.Strings(offending)
 					var body io.Reader
+					badBody := false
 					if info.BodyVerb {
-						body = bytes.NewReader([]byte("{}"))
+						// headers are judged before the body is read: an undecodable body must not change the verdict
+						// on offending headers
+						badBody = rapid.IntRange(0, 2).Draw(t, "undecodable_body") == 0
+						if badBody {
+							body = bytes.NewReader([]byte(rapid.SampledFrom([]string{`{"x":`, `not json`, `[1,`, "\xff{"}).Draw(t, "bad_body")))
+							res.class("body:undecodable")
+						} else {
+							body = bytes.NewReader([]byte("{}"))
+						}
 					}
 					_, _ = drv.Call(map[string]any{"op": "ts_server_respond", "sid": sid, "service": svc.Name, "method": m.Name, "response": map[string]any{}})
 					_, _ = drv.Call(map[string]any{"op": "ts_server_calls", "sid": sid})
@@ -162,6 +171,9 @@ func buildC09TS(e *engine, p *rt.Package) {
 						}
 					}
 					desc := fmt.Sprintf("ts-server %s %s headers=%v required=%v", info.Verb, target, printableHeaders(hdr), decl)
+					if badBody {
+						desc += " (undecodable body)"
+					}
 					if resp.StatusCode == 597 {
 						res.Unspecified++
 						return
@@ -170,6 +182,14 @@ func buildC09TS(e *engine, p *rt.Package) {
 						res.nontrivial(desc)
 					}
 					res.sample(map[string]any{"request": desc, "offending": offending, "status": resp.StatusCode})
+					if badBody && len(offending) == 0 {
+						// how the TypeScript server answers an undecodable body under acceptable headers is no part of
+						// this property (it answers 500 today); only that nothing was dispatched on a 4xx
+						if resp.StatusCode >= 400 && resp.StatusCode < 500 && len(calls) != 0 {
+							t.Fatalf("%s: answered %d for an undecodable body but the handler was invoked", desc, resp.StatusCode)
+						}
+						return
+					}
 					if resp.StatusCode >= 500 {
 						t.Fatalf("%s answered %d: %s", desc, resp.StatusCode, short(string(rb), 300))
 					}
